@@ -1,3 +1,4 @@
+#[inline(always)]
 pub fn scale(x: u64, per_hundred: u64) -> u64 {
     x * per_hundred / 100
 }
